@@ -100,6 +100,7 @@ func main() {
 	cross := flag.Bool("cross", false, "cross-check final obligations on z3-new and cvc5")
 	flag.Parse()
 
+	repoRoot = strings.TrimRight(*repo, "/")
 	start := time.Now()
 	ov, files, err := buildOverlay(*repo, *hdir, *zzdir)
 	if err != nil {
